@@ -13,6 +13,8 @@ PY = {
     "else-deep": (["if c:", "    x = 0", "else:"], []),
     "else-first": (["if c:", "    x = 0", "else:"], []),
     "elif": (["if c:", "    x = 0", "elif d:"], ["else:", "    x = 1"]),
+    "elif-else-deep": (["if c:", "    x = 0", "elif d:", "    x = 1", "else:"], []),
+    "elif-else-first": (["if c:", "    x = 0", "elif d:", "    x = 1", "else:"], []),
     "for": (["for i in xs:"], []),
     "while": (["while c:"], []),
     "with": (["with m:"], []),
@@ -27,6 +29,8 @@ TS = {
     "else-deep": (["if (c) {", "  x = 0;", "} else {"], ["}"]),
     "else-first": (["if (c) {", "  x = 0;", "} else {"], ["}"]),
     "elif": (["if (c) {", "  x = 0;", "} else if (d) {"], ["} else {", "  x = 1;", "}"]),
+    "elif-else-deep": (["if (c) {", "  x = 0;", "} else if (d) {", "  x = 1;", "} else {"], ["}"]),
+    "elif-else-first": (["if (c) {", "  x = 0;", "} else if (d) {", "  x = 1;", "} else {"], ["}"]),
     "for": (["for (let i = 0; i < n; i++) {"], ["}"]),
     "for-of": (["for (const i of xs) {"], ["}"]),
     "for-in": (["for (const k in o) {"], ["}"]),
@@ -43,6 +47,8 @@ RS = {
     "else-deep": (["if c {", "    x = 0;", "} else {"], ["}"]),
     "else-first": (["if c {", "    x = 0;", "} else {"], ["}"]),
     "elif": (["if c {", "    x = 0;", "} else if d {"], ["} else {", "    x = 1;", "}"]),
+    "elif-else-deep": (["if c {", "    x = 0;", "} else if d {", "    x = 1;", "} else {"], ["}"]),
+    "elif-else-first": (["if c {", "    x = 0;", "} else if d {", "    x = 1;", "} else {"], ["}"]),
     "for": (["for i in 0..n {"], ["}"]),
     "while": (["while c {"], ["}"]),
     "loop": (["loop {"], ["    break;", "}"]),
@@ -75,11 +81,11 @@ def body_lines(lang, chain, sibling=False):
         o, c = TABLE[lang][chain[i]]
         extra = EXTRA.get((lang, chain[i]), 0)
         lines = [" " * ind + l for l in o]
-        if chain[i] == "else-deep":
+        if chain[i] in ("else-deep", "elif-else-deep"):
             # a statement of its own inside the else block: `else:` + a lone `if` IS an elif chain
             lines.append(" " * (ind + u) + "x = 2" + semi)
         lines += rec(i + 1, ind + u * (1 + extra))
-        if chain[i] == "else-first":
+        if chain[i] in ("else-first", "elif-else-first"):
             # the nested construct comes first in the else block, followed by another statement
             lines.append(" " * (ind + u) + "x = 2" + semi)
         lines += [" " * ind + l for l in c]
